@@ -7,5 +7,6 @@ CONSTANTS
   ALPHA = "full"
   MAXLEN = 10
   GUARD = TRUE
+  AFPARK = FALSE
 INVARIANT GenPrint
 CHECK_DEADLOCK FALSE
